@@ -293,7 +293,10 @@ func (s lset) equal(o lset) bool {
 
 type taint struct {
 	v     string // variable name "pkg.v"
-	level int    // 0: the object v refers to; 1: an object published through v
+	level int    // 0: the object v refers to; 1: an object published through v;
+	// -1: a LOCAL container (map / slice built by the function) some of whose elements are objects
+	// published through v: indexing / ranging over it yields level 1 again (a "snapshot" that stores
+	// the live per-resource slices instead of copies)
 }
 type taintSet map[taint]bool
 
@@ -610,6 +613,9 @@ func (f *fa) recVar(pos token.Pos, v *types.Var, kind string, st *state) {
 
 func (f *fa) recTaint(pos token.Pos, t taintSet, kind string, st *state) {
 	for k := range t {
+		if k.level < 0 {
+			continue // the local container itself is not shared
+		}
 		n := k.v
 		if k.level >= 1 {
 			n += "[]"
@@ -678,7 +684,7 @@ func (f *fa) taintOf(e ast.Expr) taintSet {
 		}
 		out := taintSet{}
 		for k := range f.taintOf(x.X) {
-			if k.level == 0 {
+			if k.level == 0 || k.level == -1 {
 				out[taint{k.v, 1}] = true
 			}
 		}
@@ -978,6 +984,18 @@ func (f *fa) assignTaint(lhs, rhs []ast.Expr) {
 	if len(lhs) == len(rhs) {
 		for i := range lhs {
 			f.addLocalTaint(local(lhs[i]), f.taintOf(rhs[i]))
+			// local[k] = <object published through v>: the local container now holds a live object
+			if ix, ok := unparen(lhs[i]).(*ast.IndexExpr); ok {
+				if c := local(ix.X); c != nil {
+					in := taintSet{}
+					for k := range f.taintOf(rhs[i]) {
+						if k.level == 1 {
+							in[taint{k.v, -1}] = true
+						}
+					}
+					f.addLocalTaint(c, in)
+				}
+			}
 		}
 	} else if len(rhs) == 1 {
 		t := f.taintOf(rhs[0])
@@ -1001,7 +1019,7 @@ func (f *fa) rangeTaint(s *ast.RangeStmt) {
 	}
 	out := taintSet{}
 	for k := range f.taintOf(s.X) {
-		if k.level == 0 {
+		if k.level == 0 || k.level == -1 {
 			out[taint{k.v, 1}] = true
 		}
 	}
